@@ -110,6 +110,8 @@ def BP.WF (bp : BP) : Prop := (keys bp.fields).Nodup
 /-- A batch header as `edge.NewBeginBatchMessage` / `SetTags` keep it: dimensions = sorted tag keys. -/
 def Begin.WF (b : Begin) : Prop := b.dims = sortedKeys b.tags ∧ b.group = toGroupID b.name b.tags b.byName b.dims
 
+instance : DecidablePred BP.WF := fun bp => inferInstanceAs (Decidable ((keys bp.fields).Nodup))
+
 /-- One unit of input: a stream point, or a batch sent buffered or as begin / points / end. -/
 inductive Item where
   | pt (p : Point)
